@@ -24,6 +24,10 @@ pub struct Round {
     pub miner: u8,
     /// ms after the parent's timestamp
     pub dt: u32,
+    /// before this round another producer confirms one half of a double spend whose other half
+    /// (routed to this node) sits in this node's pool (staking off only)
+    #[serde(default)]
+    pub peer_conflict: Option<u8>,
 }
 
 #[derive(Debug, Clone, Serialize, Deserialize, PartialEq, Eq, Hash)]
@@ -45,6 +49,7 @@ pub struct Info {
     pub with_staking: usize,
     pub max_height: u64,
     pub atr_payout_blocks: usize,
+    pub evictions_by_peer_block: usize,
 }
 
 fn features(b: &Block, staking: bool) -> String {
@@ -72,6 +77,51 @@ pub fn run_case(case: &Case) -> (Vec<(String, String)>, Info) {
     let me = key(0);
 
     for (ri, r) in case.rounds.iter().enumerate() {
+        if let (Some(sel), false) = (r.peer_conflict, staking) {
+            let (tip_id, tip_hash) = p.tip();
+            let tip_ts = match p.chain.get_latest_block() {
+                Some(b) => b.timestamp,
+                None => break,
+            };
+            let payer_idx = 1 + sel % 3;
+            let payer = key(payer_idx);
+            if let Some(s) = p.spendable_of(&payer.0, tip_id + 3).into_iter().find(|s| s.amount >= 4) {
+                let fee = (s.amount / 2).min(1 + (sel as u64).wrapping_mul(7_919_113) % 60_000_000);
+                // X: routed to this node, waits in its pool
+                let mut x = tx_from_inputs(vec![s.clone()], vec![(key(3).0, s.amount - fee)], &payer, tip_ts + 1, vec![]);
+                add_path(&mut x, &[payer_idx, 0]);
+                let xsig = x.signature;
+                let _ = catch(|| block_on(p.mempool.add_transaction_if_validates(x, &p.chain)));
+                // Y: the conflicting spend, confirmed by another producer once no work is required
+                let y = tx_from_inputs(vec![s.clone()], vec![(payer.0, s.amount - fee)], &payer, tip_ts + 2, vec![]);
+                let pts = tip_ts + 2 * case.ncfg.heartbeat + 1;
+                let gt = if density_needs_gt(&peer) { block_on(peer.mine_gt(tip_hash, &key(2), 7_000 + ri as u64)) } else { None };
+                if let Ok(blk) = block_on(peer.make_block_as(&key(1), tip_hash, pts, vec![y], gt)) {
+                    let (a, _) = guarded_add(&mut peer, blk.clone(), 256);
+                    let (b, _) = guarded_add(&mut p, blk, 256);
+                    if !matches!(a, StepOutcome::Result("added_lc")) || !matches!(b, StepOutcome::Result("added_lc")) {
+                        return (v, info); // the other producer's block is not this check's subject
+                    }
+                    if std::env::var("VERIF_TRACE").is_ok() {
+                        let t = p.chain.get_latest_block().unwrap();
+                        eprintln!(
+                            "round {ri} PEER block id {} txs {:?} treasury {} graveyard {} unpaid {} fees {} payout_atr {} supply {:?}",
+                            t.id,
+                            t.transactions.iter().map(|x| (tx_type_name(x.transaction_type), x.from.iter().map(|s| s.amount).sum::<u64>(), x.to.iter().map(|s| s.amount).sum::<u64>())).collect::<Vec<_>>(),
+                            t.treasury,
+                            t.graveyard,
+                            t.previous_block_unpaid,
+                            t.total_fees,
+                            t.total_payout_atr,
+                            crate::refmodel::impl_supply_u128(&p.chain, case.ncfg.gp)
+                        );
+                    }
+                    if !p.mempool.transactions.contains_key(&xsig) {
+                        info.evictions_by_peer_block += 1;
+                    }
+                }
+            }
+        }
         let (tip_id, tip_hash) = p.tip();
         let tip_ts = match p.chain.get_latest_block() {
             Some(b) => b.timestamp,
@@ -188,6 +238,20 @@ pub fn run_case(case: &Case) -> (Vec<(String, String)>, Info) {
                 return (v, info);
             }
         };
+        if std::env::var("VERIF_TRACE").is_ok() {
+            eprintln!(
+                "round {ri} PRODUCED id {} txs {:?} treasury {} graveyard {} unpaid {} fees {} fees_atr {} payout_atr {} avg_nolan_rebroadcast {}",
+                block.id,
+                block.transactions.iter().map(|x| (tx_type_name(x.transaction_type), x.from.iter().map(|s| (s.block_id, s.amount)).collect::<Vec<_>>(), x.to.iter().map(|s| s.amount).collect::<Vec<_>>())).collect::<Vec<_>>(),
+                block.treasury,
+                block.graveyard,
+                block.previous_block_unpaid,
+                block.total_fees,
+                block.total_fees_atr,
+                block.total_payout_atr,
+                block.avg_nolan_rebroadcast_per_block
+            );
+        }
         let (rp, _) = guarded_add(&mut p, block.clone(), 256);
         match &rp {
             StepOutcome::Result("added_lc") => {}
@@ -199,6 +263,20 @@ pub fn run_case(case: &Case) -> (Vec<(String, String)>, Info) {
                 v.push((format!("C07|own_block_rejected|{}", feat), format!("round {}: the producer's own block id {} (txs {}) was not accepted by the producer: {}", ri, block.id, block.transactions.len(), other.name())));
                 return (v, info);
             }
+        }
+        if std::env::var("VERIF_TRACE").is_ok() {
+            let t = p.chain.get_latest_block().unwrap();
+            eprintln!(
+                "round {ri} own block id {} txs {:?} treasury {} graveyard {} unpaid {} fees {} payout_atr {} supply {:?}",
+                t.id,
+                t.transactions.iter().map(|x| (tx_type_name(x.transaction_type), x.from.iter().map(|s| s.amount).sum::<u64>(), x.to.iter().map(|s| s.amount).sum::<u64>())).collect::<Vec<_>>(),
+                t.treasury,
+                t.graveyard,
+                t.previous_block_unpaid,
+                t.total_fees,
+                t.total_payout_atr,
+                crate::refmodel::impl_supply_u128(&p.chain, case.ncfg.gp)
+            );
         }
         let (rv, _) = guarded_add(&mut peer, wire, 256);
         if !matches!(rv, StepOutcome::Result("added_lc")) {
@@ -227,6 +305,7 @@ fn eval(c: &mut Ctx, case: &Case, counting: bool) -> Vec<(String, String)> {
             (info.with_path_work, "produced_with_routing_work"),
             (info.with_staking, "produced_with_staking_tx"),
             (info.not_produced, "round_without_production"),
+            (info.evictions_by_peer_block, "pooled_tx_evicted_by_other_producers_block"),
         ] {
             if n > 0 {
                 *c.classes.entry(k.to_string()).or_insert(0) += n as u64;
@@ -256,8 +335,9 @@ pub fn arb_round() -> impl Strategy<Value = Round> {
         prop_oneof![2 => Just(false), 1 => Just(true)],
         0u8..4,
         prop_oneof![3 => 5_000u32..6_000, 2 => 6_000u32..20_000, 2 => 200u32..5_000, 1 => 1u32..200],
+        prop_oneof![5 => Just(None), 1 => any::<u8>().prop_map(Some)],
     )
-        .prop_map(|(txs, gt, miner, dt)| Round { txs, gt, miner, dt })
+        .prop_map(|(txs, gt, miner, dt, peer_conflict)| Round { txs, gt, miner, dt, peer_conflict })
 }
 
 pub fn arb_case(max_rounds: usize) -> impl Strategy<Value = Case> {
